@@ -55,14 +55,17 @@ Qed.
 
 Lemma idx_wf : forall tr p, wf_from p tr = true -> forall i, 0 <= i -> i + 1 < len tr ->
   Tn tr i < Tn tr (i + 1) /\
-  Z.abs (On p tr i - On p tr (i - 1)) + Z.abs (On p tr (i + 1) - On p tr i) <= Tn tr (i + 1) - Tn tr i.
+  dec (On p tr (i - 1)) (On p tr i) + dec (On p tr i) (On p tr (i + 1)) <= Tn tr (i + 1) - Tn tr i /\
+  inc (On p tr (i - 1)) (On p tr i) <= Tn tr (i + 1) - Tn tr i /\
+  inc (On p tr i) (On p tr (i + 1)) <= Tn tr (i + 1) - Tn tr i.
 Proof.
   induction tr as [|[t o] r IH]; intros p Hwf i Hi Hn.
   - unfold len in Hn. cbn in Hn. lia.
   - destruct r as [|[t' o'] r'].
     + unfold len in Hn. cbn in Hn. lia.
     + cbn [wf_from] in Hwf. apply andb_prop in Hwf. destruct Hwf as [Hwf H3].
-      apply andb_prop in Hwf. destruct Hwf as [H1 H2].
+      apply andb_prop in Hwf. destruct Hwf as [Hwf H5]. apply andb_prop in Hwf. destruct Hwf as [Hwf H4].
+      apply andb_prop in Hwf. destruct Hwf as [H1 H2]. unfold dec, inc in *.
       destruct (Z.eq_dec i 0) as [->|Hne].
       * replace (0 + 1) with 1 by lia. replace (0 - 1) with (-1) by lia.
         change (Tn ((t, o) :: (t', o') :: r') 0) with t.
@@ -70,7 +73,7 @@ Proof.
         change (On p ((t, o) :: (t', o') :: r') 0) with o.
         change (On p ((t, o) :: (t', o') :: r') 1) with o'.
         change (On p ((t, o) :: (t', o') :: r') (-1)) with p.
-        lia.
+        unfold dec, inc. lia.
       * rewrite !len_cons in Hn.
         rewrite (Tn_cons_pos t o _ i) by lia. rewrite (Tn_cons_pos t o _ (i + 1)) by lia.
         rewrite (On_cons p t o _ i) by lia. rewrite (On_cons p t o _ (i - 1)) by lia.
@@ -87,7 +90,8 @@ Proof.
   - destruct r as [|[t' o'] r'].
     + reflexivity.
     + cbn [wf_from] in Hwf. apply andb_prop in Hwf. destruct Hwf as [Hwf H3].
-      apply andb_prop in Hwf. destruct Hwf as [H1 H2].
+      apply andb_prop in Hwf. destruct Hwf as [Hwf H5]. apply andb_prop in Hwf. destruct Hwf as [Hwf H4].
+      apply andb_prop in Hwf. destruct Hwf as [H1 H2]. unfold dec, inc in *.
       change (sortedb (t :: map fst ((t', o') :: r')) = true).
       cbn [sortedb map fst]. apply andb_true_intro. split. lia.
       apply (IH o H3).
@@ -100,7 +104,8 @@ Proof.
   - destruct r as [|[t' o'] r'].
     + reflexivity.
     + cbn [wf_from] in Hwf. apply andb_prop in Hwf. destruct Hwf as [Hwf H3].
-      apply andb_prop in Hwf. destruct Hwf as [H1 H2].
+      apply andb_prop in Hwf. destruct Hwf as [Hwf H5]. apply andb_prop in Hwf. destruct Hwf as [Hwf H4].
+      apply andb_prop in Hwf. destruct Hwf as [H1 H2]. unfold dec, inc in *.
       specialize (IH o H3). cbn [walls] in IH |- *. cbn [sortedb] in IH |- *.
       apply andb_true_intro. split. lia. exact IH.
 Qed.
